@@ -19,7 +19,7 @@ import (
 // earlier must not change when a later one is built (scratch objects shared between events).
 func c19Pairs(c *fx.Ctx) {
 	var srcs []ev.E
-	for _, s := range []string{"9223372036854775813", "18446744073709551615", "12345678901234567890", "1180591620717411303424", "5"} {
+	for _, s := range []string{"9223372036854775813", "18446744073709551615", "12345678901234567890", "1180591620717411303424", "1180591620717411303425", "1361129467683753853853498429727072845824", "340282366920938463463374607431768211455", "5"} {
 		v, _ := new(big.Int).SetString(s, 10)
 		srcs = append(srcs, gen.IntForms(v)...)
 		srcs = append(srcs, gen.IntForms(new(big.Int).Neg(v))...)
